@@ -59,7 +59,62 @@ SURVIVED_FIRST = {
     "C19-8": "one appender per directory; a companion appender with a longer interval sharing the failed boundary added",
     "C20-7": "as C03-8: two loggers with their own File appenders on one file",
     "C20-8": "appenders were started once; kinds with an appender value stopped and started again added",
+    # round 5 (a note is printed only for the changes that survived the first attempt, see ROUND5_first_attempt.jsonl)
+    "C01-9": "events were logged one after the other; TestC01_Concurrent logs the list from 2-8 goroutines at once",
+    "C01-10": "asynchronous loggers ran with Block only; now also Discard after the buffer has overflowed once",
+    "C02-9": "",
+    "C02-10": "no logger name was also a handle name; lg0 is now requested through GetLogger",
+    "C03-9": "payloads were letters only; a field with control characters that differ per goroutine added",
+    "C03-10": "lines went up to 4x the buffer-reuse cap (40 KB); lines of 70-200 KB added",
+    "C04-9": "logger values were used for one life; a Start/Stop cycle may now precede the history",
+    "C05-9": "targets never refused a write; file appender on /dev/full with descriptor accounting added (TestC05_FailingTarget)",
+    "C05-10": "as C04-9 in the C05 cases",
+    "C06-9": "no log call was ever issued while Stop was in progress; TestC06_CallDuringStop (appender stalled, buffer with room)",
+    "C06-10": "raw writes were small; 20-30 KB raw writes (beyond the buffer-reuse cap) added as items and as the call during Stop",
+    "C07-9": "the reflect zoo had no json.RawMessage; RawMessage values with insignificant white space and line feeds added",
+    "C07-10": "end to end always ran with enableCaller=true; a quarter of the cases now run with it off",
+    "C08-9": "context strings were random printable text; strings containing or ending in the separator added",
+    "C08-10": "file paths were ASCII; paths with multi-byte characters added",
+    "C09-9": "no generator could form a six-byte backslash-u-hex pattern; an escape-lookalike alphabet is enumerated and such tokens are in the dictionary",
+    "C09-10": "escaping was checked one string at a time; TestC09_ConcurrentLayouts formats different hostile strings from 2-16 goroutines through shared layouts",
+    "C10-9": "the context-fields hook returned fresh exact-size slices and the concurrent test looked at recorded events only; now a shared slice with spare capacity and the formatted lines are checked",
+    "C10-10": "the timestamp hook never returned the zero time",
+    "C11-9": "every Record skip named an existing frame; shape skipbeyond added",
+    "C11-10": "rejected Refreshes were rejected because of the caller option itself; now also for another reason while carrying opposite, well-typed options",
+    "C12-9": "strange names did not include tag literals of configured loggers",
+    "C12-10": "as C04-9: TestC12_Restart gives a logger value several lives",
+    "C13-9": "all writes went through Write; a third now go through Append with event times that are not the wall clock",
+    "C13-10": "the process ran in UTC; it now runs in a non-UTC local zone chosen by the seed",
+    "C14-9": "the process ran in UTC; it now lives in a synthetic zone that changed its offset three days ago",
+    "C14-10": "FileDir was always a clean absolute path; trailing/doubled slashes, /./ and ./relative spellings added",
+    "C15-9": "names were ASCII; recorder names with letters outside ASCII added",
+    "C15-10": "only the built-in rotation names were used; application-registered names with upper-case letters added",
+    "C16-9": "root was never requested as a handle",
+    "C16-10": "killed by the C05 check (Stop/Destroy with a full buffer under every policy); the C16 state machine has no stalled appender - listed under also_checks",
+    "C18-10": "helper parts had one segment; sub types with two segments and with the helper's own main type as first segment added",
+    "C19-9": "the rolling appender was never behind a saturated asynchronous logger; time-lines through an async Block root logger with flooders added",
+    "C19-10": "the interval was always 1 s; 3 s time-lines with a sparse writer added",
+    "C20-9": "no raw writes through a handle; rawhandle kinds with and without trailing line break added",
+    "C20-10": "every field could be encoded; calls with a field whose encoding panics added (if the call returns, its line is due)",
 }
+
+_first = None
+
+def first_attempt_survived(sid):
+    """Rounds 4 and 5 keep the raw first-attempt output; earlier rounds are listed in SURVIVED_FIRST only if they survived."""
+    global _first
+    if _first is None:
+        _first = {}
+        for f in ("ROUND4_first_attempt.jsonl", "ROUND5_first_attempt.jsonl"):
+            fp = os.path.join(ROOT, "seeded", f)
+            if os.path.exists(fp):
+                for line in open(fp):
+                    try:
+                        r = json.loads(line)
+                        _first[r["id"]] = r["result"]
+                    except Exception:
+                        pass
+    return _first.get(sid, "SURVIVED") != "killed"
 
 def main():
     ns = sys.argv[1:] or ["5", "6"]
@@ -73,7 +128,7 @@ def main():
         r = res.get(sid, {})
         by = [p for p, c in (r.get("checks") or {}).items() if c.get("killed")]
         out = ("killed by " + ", ".join(f"`./check {p} quick`" for p in by)) if by else r.get("result", "not run")
-        if sid in SURVIVED_FIRST:
+        if sid in SURVIVED_FIRST and SURVIVED_FIRST[sid] and first_attempt_survived(sid):
             out += "; SURVIVED first: " + SURVIVED_FIRST[sid]
         cl = lambda s: s.replace("|", "/").replace("\n", " ")
         print(f"| {sid} | {cl(m['summary'])[:330]} | {cl(m['needs'])[:300]} | {out} |")
